@@ -249,6 +249,12 @@ PRESERVE_REFUSALS = [
     ("duplicate-merge:both-names-preserved", "fixes.remove_duplicate_functions", F1.format(a="f", b="g") + "print(f(1), g(2))\n", ["f", "g"], "def g(x)"),
     ("duplicate-merge:both-names-preserved-neither-used-in-the-module", "fixes.remove_duplicate_functions", F1.format(a="f", b="g"), ["f", "g"], "def g(x)"),
     ("duplicate-merge:three-copies-two-preserved-none-used-in-the-module", "fixes.remove_duplicate_functions", F1.format(a="f", b="g") + "\n\n" + F1.format(a="h", b="k"), ["g", "k"], "def k(x)"),
+    # a preserved class that is not a direct statement of the module keeps its methods too (constructor, special methods)
+    ("unused-definitions:preserved-class-under-if", "fixes.delete_unused_functions_and_classes", "import sys\n\nif sys.argv:\n    class Buffer:\n        def __init__(self, n):\n            self.n = n\n\n        def __len__(self):\n            return self.n\n", ["Buffer"], "def __len__(self)"),
+    ("unused-definitions:preserved-class-under-try", "fixes.delete_unused_functions_and_classes", "try:\n    class Buffer:\n        def __init__(self, n):\n            self.n = n\nexcept NameError:\n    Buffer = None\n", ["Buffer"], "def __init__(self, n)"),
+    ("unused-definitions:preserved-class-in-a-class", "fixes.delete_unused_functions_and_classes", "class Registry:\n    class Entry:\n        def __init__(self, k):\n            self.k = k\n\n        def __repr__(self):\n            return 'E'\n\n    entries = []\n", ["Registry", "Entry", "entries"], "def __repr__(self)"),
+    ("unused-definitions:preserved-class-in-a-function", "fixes.delete_unused_functions_and_classes", "def make():\n    class Local:\n        def __init__(self, k):\n            self.k = k\n\n    return Local\n", ["make", "Local"], "def __init__(self, k)"),
+    ("unused-definitions:preserved-class-under-with", "fixes.delete_unused_functions_and_classes", "import contextlib\n\nwith contextlib.suppress(Exception):\n    class Buffer:\n        def __init__(self, n):\n            self.n = n\n", ["Buffer"], "def __init__(self, n)"),
     ("unused-self:method-preserved", "object_oriented.remove_unused_self_cls", LIBK, ["to_celsius"], "def to_celsius("),
 ]
 
